@@ -4,4 +4,5 @@ pub mod gen_app;
 pub mod echo;
 pub mod gen_req;
 pub mod hex;
+pub mod sidecar;
 pub mod sock;
